@@ -1,5 +1,136 @@
 import NxProofs.Schema
+/-!
+# C13 — generated structures and methods use exactly the layout their definitions state
+
+Model: `NxModel/Nex/Schema.lean` — one generic interpreter (`encode`/`decode`/`visible`, request/response
+layouts) over definitions given as data (`Ty`, `Items`, `StructDef`, `MethodDef`, `Env`), mirroring what
+`generate_protocols.py` emits on top of `Structure.encode/decode`, `DataHolder` and the NEX streams. The
+translator regenerates the data from `nintendo/files/proto/*.proto` on every run; the tie compares the
+interpreter with every generated class and method. Recursion through structure references and polymorphic
+payloads is tied by *fuel* (`encObj`/`decObj`, structural on the fuel; `Ty` and `Items` are traversed
+structurally), because `anydata` may nest instances to a depth that only the value bounds.
+
+Statements only; proofs in `NxProofs/Schema.lean`.
+
+Full-strength form asked for: `WFEnv env → HasType env cfg ty v → decode env cfg ty (encode env cfg ty v ++ rest)
+= ok (visible cfg v, rest)` with a total `encode`. What is proved is `schema_roundtrip` below: for **every**
+environment (well-formed or not), configuration, type, value and fuel, *whenever the interpreter's encoder
+accepts the value* the decoder inverts it exactly. This is the round-trip half at full generality (it needs no
+well-formedness at all); the other half, totality (`WFEnv env → HasType … → ∃ fuel b, encode … = ok b`, i.e. an
+independent typing judgement implies acceptance), is NOT proved — acceptance of every schema-directed value is
+what the exhaustive tie observes instead. The encoder's acceptance condition is exactly: integers in the range
+of their width, lengths fitting their prefix, required attributes not `None`, as many attributes as the
+definition has, classes resolving, enough fuel.
+-/
 namespace Nx.C13
 open Nx Nx.Schema
-theorem placeholder : builtins.length = 3 := rfl
+
+/-- **generic schema round trip**: one theorem for all definitions × values × configurations.
+    `visible` erases exactly the attributes whose `nex`/`revision` gate is closed. -/
+theorem schema_roundtrip (env : Env) (cfg : Cfg) (fuel : Nat) (ty : Ty) (v : Val) (b rest : Bytes)
+    (h : encode env cfg fuel ty v = .ok b) :
+    decode env cfg fuel ty (b ++ rest) = .ok (visible env cfg fuel ty v, rest) :=
+  encode_decode env cfg fuel ty v b rest h
+
+/-- the same for a whole structure instance of class `c` (hierarchy loop, optional `u8 version ‖ u32 len ‖ body`
+    per class), also reporting that decoding consumed exactly the encoding -/
+theorem struct_roundtrip (env : Env) (cfg : Cfg) (fuel : Nat) (c : Name) (attrs attrs' : List Val) (b rest : Bytes)
+    (h : encObj env cfg fuel c attrs = .ok (b, attrs')) :
+    decObj env cfg fuel c (b ++ rest) = .ok ((visObj env cfg fuel c attrs).1, rest)
+      ∧ (visObj env cfg fuel c attrs).2 = attrs' :=
+  encGo_rt env cfg fuel none c attrs b attrs' rest h
+
+/-- structure-header framing of one hierarchy level: `u8 version ‖ u32 length ‖ body`, version = `max_version` -/
+theorem struct_header_layout {E : EncHook} {env : Env} {cfg : Cfg} {ver : Nat} {leaf : Items × List Val}
+    {d : StructDef} {vs vs' : List Val} {b : Bytes} (hh : cfg.structHeader = true)
+    (h : encClass E env cfg ver leaf d vs = .ok (b, vs')) :
+    ∃ body, encItems E env cfg ver d.items vs = .ok (body, vs') ∧ ver < 256 ∧ body.length < 4294967296
+      ∧ b = u8 ver ++ u32le body.length ++ body :=
+  encClass_header hh h
+
+/-- without structure headers a level is just its fields, saved with version 0 -/
+theorem struct_noheader_layout {E : EncHook} {env : Env} {cfg : Cfg} {ver : Nat} {leaf : Items × List Val}
+    {d : StructDef} {vs vs' : List Val} {b : Bytes} (hh : cfg.structHeader = false)
+    (h : encClass E env cfg ver leaf d vs = .ok (b, vs')) :
+    encItems E env cfg 0 d.items vs = .ok (b, vs') :=
+  encClass_noheader hh h
+
+/-- raising `nex.version` only ever adds serialised attributes, in place (order preserved) -/
+theorem gate_monotone (ver : Nat) {n1 n2 : Nat} (h : n1 ≤ n2) (it : Items) :
+    (it.active n1 ver).Sublist (it.active n2 ver) :=
+  active_mono_nex ver h it
+
+/-- a gate `nex g { body }` opens exactly at `g`: at `g` the body is serialised, at `g - 1` it is not
+    (an off-by-one in a generated `>=` changes the bytes at `nex.version = g`, which the tie always samples) -/
+theorem gate_exact (g ver : Nat) (body rest : Items) (hg : 0 < g) :
+    (Items.nex g body rest).active g ver = body.active g ver ++ rest.active g ver
+      ∧ (Items.nex g body rest).active (g - 1) ver = rest.active (g - 1) ver := by
+  constructor
+  · simp [Items.active]
+  · have : ¬ g - 1 ≥ g := by omega
+    simp [Items.active, this]
+
+/-- request layout: the generated client hands (protocol id, method id, parameters encoded in declaration order)
+    to the RMC layer, and the generated server decodes exactly the visible arguments from it (ignoring, as the
+    code does, anything that follows) -/
+theorem request_layout {env : Env} {cfg : Cfg} {fuel : Nat} {p : ProtoDef} {m : MethodDef} {args : List Val}
+    {pi mi : Nat} {body : Bytes} (h : clientRequest env cfg fuel p m args = .ok (pi, mi, body)) (extra : Bytes) :
+    pi = p.id ∧ mi = m.id ∧ encArgs env cfg fuel m.request args = .ok body
+      ∧ serverRequest env cfg fuel m (body ++ extra) = .ok (visArgs env cfg fuel m.request args) :=
+  let ⟨h1, h2, h3⟩ := clientRequest_ok h
+  ⟨h1, h2, h3, serverRequest_of_client h3 extra⟩
+
+/-- parameters (and results) are laid out one after the other in declaration order -/
+theorem args_concat (env : Env) (cfg : Cfg) (fuel : Nat) (n : Name) (ty : Ty) (ps : List (Name × Ty))
+    (v : Val) (vs : List Val) (b : Bytes) :
+    encArgs env cfg fuel ((n, ty) :: ps) (v :: vs) = .ok b ↔
+      ∃ b1 b2, encode env cfg fuel ty v = .ok b1 ∧ encArgs env cfg fuel ps vs = .ok b2 ∧ b = b1 ++ b2 :=
+  encArgs_cons env cfg fuel n ty ps v vs b
+
+/-- response layout: results in declaration order; the client decodes the visible results and rejects any
+    trailing byte -/
+theorem response_layout {env : Env} {cfg : Cfg} {fuel : Nat} {m : MethodDef} {res : List Val} {body : Bytes}
+    (h : serverResponse env cfg fuel m res = .ok body) :
+    encArgs env cfg fuel m.response res = .ok body
+      ∧ clientResponse env cfg fuel m body = .ok (visArgs env cfg fuel m.response res)
+      ∧ ∀ x, x ≠ [] → clientResponse env cfg fuel m (body ++ x) = .error .value :=
+  ⟨serverResponse_ok h, clientResponse_of_server (serverResponse_ok h),
+   fun x hx => clientResponse_trailing (serverResponse_ok h) x hx⟩
+
+/-- method ids (and names) identify methods: in a protocol passing the generated obligation `wf_protos`
+    a method is found again by its id and by its name -/
+theorem method_ids {env : Env} {p : ProtoDef} (h : wfProto env p = true) {m : MethodDef} (hm : m ∈ p.methods) :
+    findMethodById p m.id = some m ∧ findMethod p m.name = some m :=
+  ⟨find_of_nodup MethodDef.id p.methods m (wfProto_ids h).1 hm, find_of_nodup MethodDef.name p.methods m (wfProto_ids h).2 hm⟩
+
+/-! ## non-vacuity: hypotheses are satisfiable at non-trivial points (inheritance, gates, revisions, headers,
+     polymorphic payloads); all by kernel evaluation -/
+
+-- an inherited structure under an old version without headers: gated attributes consumed but not written
+example : encode Ex.env Ex.cfgOld 8 (.struct 77) Ex.sessionVal = .ok [7, 0, 0, 0, 2, 0, 0, 0, 1, 255] := by decide
+example : visible Ex.env Ex.cfgOld 8 (.struct 77) Ex.sessionVal
+    = .obj 77 [.int 7, .absent, .list [.int 1, .int 255], .absent, .absent] := by rfl
+-- the same value with headers at nex 3.6: `Gathering` level (version 0), own level (version 1)
+example : encode Ex.env Ex.cfg36 8 (.struct 77) Ex.sessionVal
+    = .ok [0, 8, 0, 0, 0, 7, 0, 0, 0, 2, 0, 0x41, 0,   1, 14, 0, 0, 0, 2, 0, 0, 0, 1, 255, 99, 0, 0, 0, 0, 0, 0, 0] := by decide
+-- at nex 4.0 the *last* assignment `version = 0` wins: the revision-1 attribute is no longer written
+example : encode Ex.env Ex.cfgNew 8 (.struct 77) Ex.sessionVal
+    = .ok [0, 8, 0, 0, 0, 7, 0, 0, 0, 2, 0, 0x41, 0,   0, 10, 0, 0, 0, 2, 0, 0, 0, 1, 255, 2, 0, 0x42, 0] := by decide
+example : decode Ex.env Ex.cfgNew 8 (.struct 77)
+      ([0, 8, 0, 0, 0, 7, 0, 0, 0, 2, 0, 0x41, 0, 0, 10, 0, 0, 0, 2, 0, 0, 0, 1, 255, 2, 0, 0x42, 0] ++ [9, 9])
+    = .ok (.obj 77 [.int 7, .str [0x41], .list [.int 1, .int 255], .absent, .str [0x42]], [9, 9]) := by rfl
+-- a polymorphic payload: string name, u32 len+4, buffer
+example : encode Ex.env Ex.cfgOld 8 .anydata (.obj nNullData [])
+    = .ok [9, 0, 0x4E, 0x75, 0x6C, 0x6C, 0x44, 0x61, 0x74, 0x61, 0, 4, 0, 0, 0, 0, 0, 0, 0] := by decide
+-- out-of-range values and missing required attributes are rejected like `struct.pack` / `check_required` do
+example : encode Ex.env Ex.cfgOld 8 (.uint .b2) (.int 65536) = .error .struct := by decide
+example : encode Ex.env Ex.cfgOld 8 (.uint .b1) (.int 256) = .error .value := by decide
+example : encode Ex.env Ex.cfgOld 8 (.struct 71) (.obj 71 [.none, .str []]) = .error .value := by decide
+-- requests: protocol id, method id, body
+example : clientRequest Ex.env Ex.cfgOld 8 Ex.proto Ex.meth [Ex.sessionVal, .int 5]
+    = .ok (21, 1, [7, 0, 0, 0, 2, 0, 0, 0, 1, 255, 5, 0, 0, 0]) := by decide
+example : wfProtos Ex.env = true ∧ wfStructs Ex.env = true := by decide
+example : (Items.nex 30500 (.field 2 .string true .nil) (.field 1 .pid false .nil)).active 30500 0 = [2, 1] := by decide
+example : (Items.nex 30500 (.field 2 .string true .nil) (.field 1 .pid false .nil)).active 30499 0 = [1] := by decide
+
 end Nx.C13
